@@ -3,8 +3,17 @@
 of /repo HEAD and run the quick check of the property it breaks; writes seeded/RESULTS.json (which check
 caught which change, with signatures)."""
 import json, os, re, subprocess, sys, glob, hashlib, shutil
-names = sys.argv[1:] or sorted(os.path.basename(d) for d in glob.glob('/verif/seeded/C*'))
 out_p = '/verif/seeded/RESULTS.json'
+if sys.argv[1:2] == ['--merge']:
+    # tools/seedsweep.py --merge part1.json part2.json ... : folds partial result files (parallel sweeps) into RESULTS.json
+    res = json.load(open(out_p)) if os.path.exists(out_p) else {}
+    for f in sys.argv[2:]:
+        res.update(json.load(open(f)))
+    json.dump(res, open(out_p, 'w'), indent=1, sort_keys=True)
+    print('merged', len(res), 'entries;', sum(1 for v in res.values() if not v.get('caught')), 'not caught')
+    sys.exit(0)
+names = sys.argv[1:] or sorted(os.path.basename(d) for d in glob.glob('/verif/seeded/C*'))
+out_p = os.environ.get('SEEDSWEEP_OUT', out_p)  # parallel sweeps write partial files, merged with --merge
 res = json.load(open(out_p)) if os.path.exists(out_p) else {}
 for n in names:
     pid = re.sub(r'[a-z]$', '', n)
